@@ -455,6 +455,31 @@ impl Inputs {
 }
 
 
+// math/src/fft/serial.rs evaluate_poly: the network followed by the bit-reversal permutation (whose contract is proved in
+// unit fftv against permute_index's Kani-proved contract; restated here as the specification of an external_body method)
+pub uninterp spec fn pidx(n: int, i: int) -> int;
+impl Inputs {
+    #[verifier::external_body]
+    pub fn permute(&mut self)
+        ensures
+            final(self).v.len() == old(self).v.len(),
+            forall|t: int| 0 <= t < old(self).v.len() ==> #[trigger] final(self).v@[t] == old(self).v@[pidx(old(self).v.len() as int, t)],
+    { unimplemented!() }
+}
+
+//@@ source math/src/fft/serial.rs
+//@@ extract anchor="pub fn evaluate_poly<B, E>(p: &mut [E], twiddles: &[B])"
+//@@ rewrite "p.fft_in_place(twiddles);" => "p.fft_in_place_entry(twiddles);"
+pub fn evaluate_poly(p: &mut Inputs, twiddles: &[B])
+    requires
+        is_p2(old(p).v.len() as int), old(p).v.len() >= 2, twiddles.len() >= old(p).v.len() / 2, old(p).v.len() <= usize::MAX / 4,
+    ensures
+        final(p).v.len() == old(p).v.len(),
+        forall|t: int| 0 <= t < old(p).v.len() ==> #[trigger] final(p).v@[t] == fft(old(p).v@, twiddles@)[pidx(old(p).v.len() as int, t)],
+{
+    /*@@body*/
+}
+
 proof fn fftcore_canary_must_fail(a: E, b: E)
     ensures add_of(a, b) == add_of(b, a)
 {
